@@ -41,6 +41,71 @@ func (*Sorter).less
 
 immutable DataProcessor: stream
 
+// the comparator handed to the sort routine answers for the two rows it is asked about, in that order, with what less says
+func (*Sorter).Sort$1
+  props C07
+  modifies *
+  observe verdict := less
+  before less the-comparator-compares-the-two-rows-asked-about-in-that-order: $arg1 == rows[i] && $arg2 == rows[j]
+  atreturn the-comparators-answer-is-less: result == $verdict
+
+func (*Sorter).Sort
+  props C07
+  option assumed_frame
+  modifies allmaps
+  count sorted := SliceStable
+  atreturn batches-of-two-or-more-rows-are-sorted-once-when-there-are-keys: $sorted == ite(old(len(s.keys) == 0 || len(rows) < 2), 0, 1)
+
+// a delivered batch goes to every registered sink, asynchronous ones first, each with this very batch
+extern (*Stream).submitSinkTask
+  props C05 C19
+  modifies *
+
+func (*Stream).callSinksAsync
+  props C05 C19
+  modifies *
+  count submits := submitSinkTask
+  before submitSinkTask each-asynchronous-sink-is-handed-this-very-batch: $arg1 == sink && $arg2 == results
+  atreturn no-sink-is-skipped: old(len(s.sinks)) > 0 || old(len(s.syncSinks)) > 0 ==> $done1 && $done2
+  loop 1 invariant $submits == $i
+
+func (*Stream).invokeSinksInline
+  props C05 C19 C15 C06 C12 C13 C14 C16 C20
+  modifies *
+  atreturn no-sink-is-skipped-at-the-final-flush: $done1 && $done2
+  loop 1 invariant len(sinks) == old(len(s.sinks)) && len(syncSinks) == old(len(s.syncSinks))
+  loop 2 invariant len(sinks) == old(len(s.sinks)) && len(syncSinks) == old(len(s.syncSinks))
+
+// what is compiled for a SELECT expression item is compiled from that item's own text; the hand-written engine's direct path
+// is enabled only for a non-call expression that parsed and holds no quote or backtick
+pred exprInfoOK(info, text) := info != nil && fresh(info) && info.originalExpr == text && (info.isFunctionCall <==> strings.Contains(text, "(") && strings.Contains(text, ")")) && (info.hasNestedFields <==> !info.isFunctionCall && strings.Contains(text, ".")) && (info.compiledExprFastPath ==> info.compiledExpr != nil && !info.isFunctionCall && !strings.ContainsAny(text, "'\"`")) && (info.isFunctionCall ==> info.compiledExpr == nil)
+
+func (*Stream).compileExpressionInfo
+  props C06 C05 C04 C07 C16 C20
+  option assumed_frame
+  requires s.compiledExprInfo != nil
+  modifies s.hasUnnestFunction, mapof(s.compiledExprInfo)
+  observe hasNull := ContainsIsNullOperator
+  observe isnull := PreprocessIsNullExpression
+  observe nullErr := PreprocessIsNullExpression#1
+  observe hasLike := ContainsLikeOperator
+  observe like := PreprocessLikeExpression
+  observe likeErr := PreprocessLikeExpression#1
+  before ContainsIsNullOperator the-rewriting-starts-from-the-items-own-text: $arg1 == fieldExpr.Expression
+  before ContainsLikeOperator like-rewriting-continues-from-the-is-null-rewriting: $arg1 == ite($hasNull && $nullErr == nil, $isnull, fieldExpr.Expression)
+  observe hasTick := ContainsBacktickIdentifiers
+  observe tick := PreprocessBacktickIdentifiers
+  observe tickErr := PreprocessBacktickIdentifiers#1
+  before ContainsBacktickIdentifiers backticks-are-looked-for-in-the-items-own-text: $arg1 == fieldExpr.Expression
+  before NewExpression the-text-compiled-is-the-items-own-text-without-backticks: $arg0 == ite($hasTick && $tickErr == nil, $tick, fieldExpr.Expression)
+  loop 1 invariant forallv(k, "", $visited[k] ==> dom(s.compiledExprInfo, k) && s.compiledExprInfo[k] != nil && fresh(s.compiledExprInfo[k]) && allocated(s.compiledExprInfo[k]))
+  loop 1 invariant forallv(k, "", $visited[k] ==> s.compiledExprInfo[k].originalExpr == s.config.FieldExpressions[k].Expression)
+  loop 1 invariant forallv(k, "", $visited[k] ==> (s.compiledExprInfo[k].isFunctionCall <==> strings.Contains(s.config.FieldExpressions[k].Expression, "(") && strings.Contains(s.config.FieldExpressions[k].Expression, ")")))
+  loop 1 invariant forallv(k, "", $visited[k] ==> (s.compiledExprInfo[k].hasNestedFields <==> !s.compiledExprInfo[k].isFunctionCall && strings.Contains(s.config.FieldExpressions[k].Expression, ".")))
+  loop 1 invariant forallv(k, "", $visited[k] ==> (s.compiledExprInfo[k].compiledExprFastPath ==> s.compiledExprInfo[k].compiledExpr != nil && !s.compiledExprInfo[k].isFunctionCall && !strings.ContainsAny(s.config.FieldExpressions[k].Expression, "'\"`")))
+  loop 1 invariant forallv(k, "", $visited[k] ==> (s.compiledExprInfo[k].isFunctionCall ==> s.compiledExprInfo[k].compiledExpr == nil))
+  ensures every-expression-item-has-its-own-compiled-info: forallv(k, "", dom(s.config.FieldExpressions, k) ==> dom(s.compiledExprInfo, k) && exprInfoOK(s.compiledExprInfo[k], s.config.FieldExpressions[k].Expression))
+
 func NewDataProcessor
   props C05 C19 C01 C03 C07 C08 C09 C10 C12 C15 C17 C20
   ensures the-processor-serves-the-stream-it-was-built-for: fresh(result) && result.stream == stream
@@ -211,9 +276,19 @@ extern (*DataProcessor).applyHavingFilter
   props C07 C01 C03 C05 C08 C09 C10 C12 C15 C17 C20
   modifies allmaps
 
-extern (*Stream).applyOrderBy
+func (*Stream).applyOrderBy
   props C07 C05
+  option assumed_frame
   modifies allmaps
+  count sorted := Sort
+  observe sorter := NewSorter
+  before NewSorter the-sort-keys-are-the-configured-order-by-list: $arg0 == s.config.OrderBy
+  before Sort this-batch-is-sorted-by-that-sorter: $arg0 == $sorter && $arg1 == results
+  atreturn a-batch-is-sorted-whenever-order-by-is-configured-and-it-has-two-rows: $sorted == ite(len(s.config.OrderBy) == 0 || len(results) < 2, 0, 1)
+
+func NewSorter
+  props C07 C05
+  ensures a-sorter-of-exactly-the-keys-given: fresh(result) && result.keys == keys
 
 func (*Stream).hasAnalyticFields
   props C07 C05 C06 C12 C13 C14 C15 C16 C19 C20
